@@ -851,8 +851,13 @@ class ConstantOperator(Operator):
     def adjoint(self):
         """Adjoint of the operator.
 
-        Only defined if the operator is the constant operator.
+        Only defined if the operator is the zero operator.
         """
+        if not self.is_linear:
+            # Raises the appropriate error
+            return super(ConstantOperator, self).adjoint
+
+        return ZeroOperator(domain=self.range, range=self.domain)
 
     def derivative(self, point):
         """Derivative of this operator, always zero.
